@@ -1,6 +1,9 @@
 package gorums
 
 import (
+	"reflect"
+	"unsafe"
+
 	"github.com/relab/gorums/ordering"
 	"google.golang.org/grpc"
 )
@@ -10,22 +13,46 @@ func VerifServe(s *Server, ss grpc.ServerStream) error {
 	return ordering.Gorums_ServiceDesc.Streams[0].Handler(s.srv, ss)
 }
 
-// VerifRouters returns the number of response routers registered on the node.
+// verifChannel returns the node's channel struct by reflection, so that this file keeps
+// compiling when internals it does not need are renamed or moved.
+func verifChannel(n *RawNode) reflect.Value {
+	f := reflect.ValueOf(n).Elem().FieldByName("channel")
+	if !f.IsValid() || f.Kind() != reflect.Ptr || f.IsNil() {
+		return reflect.Value{}
+	}
+	return f.Elem()
+}
+
+// VerifRouters returns the amount of per-call bookkeeping the client keeps for the node: the
+// total number of entries in the maps of the node's channel (response routers and whatever
+// other per-message tables exist).
 func VerifRouters(n *RawNode) int {
-	return len(n.channel.responseRouters)
+	c := verifChannel(n)
+	if !c.IsValid() {
+		return 0
+	}
+	total := 0
+	for i := 0; i < c.NumField(); i++ {
+		if f := c.Field(i); f.Kind() == reflect.Map {
+			total += f.Len()
+		}
+	}
+	return total
 }
 
 // VerifSetLastErr sets the last error recorded on the node's channel.
 func VerifSetLastErr(n *RawNode, err error) {
-	n.channel.setLastErr(err)
+	c := verifChannel(n)
+	if c.IsValid() {
+		if f := c.FieldByName("lastError"); f.IsValid() && f.CanAddr() {
+			reflect.NewAt(f.Type(), unsafe.Pointer(f.UnsafeAddr())).Elem().Set(reflect.ValueOf(&err).Elem())
+			return
+		}
+	}
+	panic("verif accessor: the node's channel has no field lastError")
 }
 
 // VerifNewMessage creates an empty message for decoding (1 = request, 2 = response).
 func VerifNewMessage(kind int) *Message {
 	return newMessage(gorumsMsgType(kind))
-}
-
-// VerifMsgID returns the next message id the manager would hand out minus one (ids handed out so far).
-func VerifMsgIDs(m *RawManager) uint64 {
-	return m.nextMsgID
 }
